@@ -395,7 +395,9 @@ func (r *renderer) gap() string {
 		return " # c\n"
 	case "/*":
 		return " /* c */ "
-	case "doc":
+	case "/**":
+		return " /* c **/ "
+	case "doc", "doc*":
 		return " "
 	}
 	return " "
@@ -472,6 +474,8 @@ func (r *renderer) fields(fs []*Field, withReq bool, indent string) string {
 	for i, f := range fs {
 		if r.st.Comment == "doc" {
 			sb.WriteString(indent + "/**@ doc */\n")
+		} else if r.st.Comment == "doc*" {
+			sb.WriteString(indent + "/**@ doc **/\n")
 		}
 		sb.WriteString(indent + r.field(f, withReq))
 		if r.st.Sep != "" && (i < len(fs)-1 || r.st.Sep == ";") {
@@ -505,6 +509,9 @@ func Render(f *File, st Style) string {
 			w.WriteString(strings.TrimLeft(r.gap(), " "))
 		} else if st.Comment == "/*" {
 			w.WriteString("/* block\n comment */\n")
+		} else if st.Comment == "/**" {
+			// runs of stars of either parity in front of the closing slash, and a comment that is nothing else
+			w.WriteString("/****** banner\n * line ******/\n/***/ /* odd ***/\n")
 		}
 		switch {
 		case d.Include != "":
@@ -533,6 +540,8 @@ func Render(f *File, st Style) string {
 		case d.Struct != nil:
 			if st.Comment == "doc" {
 				w.WriteString("/**@ struct doc */\n")
+			} else if st.Comment == "doc*" {
+				w.WriteString("/**@ struct doc ** **/\n")
 			}
 			w.WriteString(d.Struct.Kind + " " + d.Struct.Name + " {")
 			if !st.OneLine {
@@ -551,6 +560,8 @@ func Render(f *File, st Style) string {
 			for i, m := range d.Service.Methods {
 				if st.Comment == "doc" {
 					w.WriteString("  /**@ method doc */\n")
+				} else if st.Comment == "doc*" {
+					w.WriteString("  /**@ method * doc **/\n")
 				}
 				w.WriteString("  ")
 				if m.Oneway {
@@ -595,7 +606,7 @@ func Render(f *File, st Style) string {
 func Styles(all bool) []Style {
 	var out []Style
 	seps := []string{",", ";", ""}
-	comments := []string{"", "//", "#", "/*", "doc"}
+	comments := []string{"", "//", "#", "/*", "doc", "/**", "doc*"}
 	for _, sep := range seps {
 		for _, c := range comments {
 			for _, q := range []byte{'"', '\''} {
